@@ -4,9 +4,12 @@
    reachability filter); the candidate list it receives is required to cover the node's attractors
    (property C08).  Checks.check_seeds is the predicate evaluated on the implementation's seeds.
    OwnerFacts: in a fully expanded diagram every attractor has exactly one owner node, so per-node one-to-one
-   seeds give a global one-to-one correspondence (global_one_to_one).  PARTIAL: for block and attractor-seed
-   expansion the models (Blocks.v, ASeeds.v) are replayed against the code but the global bijection is decided by
-   the verdicts; the source-SCC strategy is not modelled and has the known finding D15.
+   seeds give a global one-to-one correspondence (global_one_to_one).  Block expansion and attractor-seed expansion
+   leave stubs: PartialOwner generalises the owner theory to expanded owners; BlockComplete / ASeedsFacts prove that a
+   run reporting completion leaves no attractor unserved (expand_block_one_to_one, expand_aseeds_one_to_one), under
+   the contract of the recorded tape -- every block reported clean has no motif-avoidant attractor
+   (BlockMath.block_clean), every NFVS hits every negative cycle -- which the extracted LogChecks predicates
+   decide on every replayed run.  PARTIAL: the source-SCC strategy is not modelled and has the known finding D15.
 
    This file contains only restatements closed by `exact` (statements produced by Coq's own
    `Check` of the library lemma) plus non-vacuity Examples, each followed by Print Assumptions. *)
@@ -14,7 +17,8 @@ From Coq Require Import List Bool Arith NArith Lia Relations Permutation.
 Import ListNotations.
 From BB Require Import BN Brute SpaceFacts TrapFacts PercolateFacts AttractorFacts Diagram Invariants Checks Filter
   Strict PetriNet Control Meta FilterFacts PetriNetFacts TrappistFacts DiagramStruct DiagramSem1 DiagramCache
-  DiagramDepth DiagramComplete Termination ControlFacts MetaFacts Candidates StrictFacts MinExpandFacts CandidatesFacts SymbolicTest SymbolicTestFacts Signed ReductionFacts ControlFacts2 Main Blocks BlocksFacts ObsFacts OwnerFacts CandidatesTerm.
+  DiagramDepth DiagramComplete Termination ControlFacts MetaFacts Candidates StrictFacts MinExpandFacts CandidatesFacts SymbolicTest SymbolicTestFacts Signed ReductionFacts ControlFacts2 Main Blocks BlocksFacts ObsFacts OwnerFacts CandidatesTerm
+  PartialOwner BlockMath BlockComplete ASeeds ASeedsFacts LogChecks SkipRule SkipRuleFacts Names NamesFacts Perm PermFacts.
 
 (* given covering candidates, the filter returns exactly one seed per attractor of the node, and the sets are the attractors *)
 Theorem C01_filter_exact : forall (N : net) (S : space) (motifs : list space) (cands seeds : list state) (sets : list (list state)), trap_space N S -> (forall M : space, In M motifs -> trap_space N M /\ subspace M S = true) -> NoDup cands -> (forall c : state, In c cands -> in_space c S = true) -> covers N S motifs cands -> compute_attractors_filter N false motifs cands = (seeds, Some sets) -> one_to_one N S motifs seeds /\ length sets = length seeds /\ (forall (i : nat) (s : state) (X : list state), nth_error seeds i = Some s -> nth_error sets i = Some X -> forall t : state, In t X <-> reach N s t).
@@ -72,6 +76,55 @@ Proof. exact owner_unique. Qed.
 Theorem C01_global_one_to_one : forall (N : net) (d : sd) (seeds : nat -> list state), Hierarchy N d -> all_seeds_ok N d seeds -> (forall A : state -> Prop, attractor N A -> exists (i : nat) (s : state), i < size d /\ In s (seeds i) /\ A s) /\ (forall (A : state -> Prop) (i j : nat) (s t : state), attractor N A -> i < size d -> j < size d -> In s (seeds i) -> In t (seeds j) -> A s -> A t -> i = j /\ s = t) /\ (forall (i : nat) (s : state), i < size d -> In s (seeds i) -> exists A : state -> Prop, attractor N A /\ A s /\ inside A (n_space (get d i))).
 Proof. exact global_one_to_one. Qed.
 
+(* diagrams with stubs: seeds of the EXPANDED nodes are one-to-one with the attractors once every attractor has an expanded owner *)
+Theorem C01_partial_one_to_one : forall (N : net) (d : sd) (seeds : nat -> list state), SWF N d -> TrapNodes N d -> NoSkips d -> CanonOrFF N d -> AttrServed N d -> exp_seeds_ok N d seeds -> (forall A : state -> Prop, attractor N A -> exists (i : nat) (s : state), i < size d /\ n_exp (get d i) = true /\ In s (seeds i) /\ A s) /\ (forall (A : state -> Prop) (i j : nat) (s t : state), attractor N A -> i < size d -> j < size d -> n_exp (get d i) = true -> n_exp (get d j) = true -> In s (seeds i) -> In t (seeds j) -> A s -> A t -> i = j /\ s = t) /\ (forall (i : nat) (s : state), i < size d -> n_exp (get d i) = true -> In s (seeds i) -> exists A : state -> Prop, attractor N A /\ A s /\ inside A (n_space (get d i))).
+Proof. exact partial_one_to_one. Qed.
+
+Theorem C01_owner_unique_partial : forall (N : net) (d : sd) (A : state -> Prop) (i j : nat), SWF N d -> TrapNodes N d -> NoSkips d -> CanonOrFF N d -> attractor N A -> owns_exp N d i A -> owns_exp N d j A -> i = j.
+Proof. exact owner_unique_partial. Qed.
+
+(* source shortcut: the node whose successors are the source valuations owns no attractor (its seeds are set to []) *)
+Theorem C01_ff_form_owns_nothing : forall (N : net) (d : sd) (i : nat) (A : state -> Prop), SWF N d -> TrapNodes N d -> i < size d -> ff_form N d i -> attractor N A -> ~ owns N d i A.
+Proof. exact ff_form_owns_nothing. Qed.
+
+(* the clean-block argument: if the block sub-network has no motif-avoidant attractor, every attractor of the node lies in a motif of that block *)
+Theorem C01_clean_block_covers : forall (N : net) (S : space) (B : list nat) (motifs : list (list (option bool))), trap_space N S -> closed_in N S B -> (forall m : list (option bool), In m motifs -> length m = nvars N /\ subspace m S = true /\ fixes_within m S B) -> block_clean N S B motifs -> forall A : state -> Prop, attractor N A -> inside A S -> exists m : list (option bool), In m motifs /\ inside A m.
+Proof. exact clean_block_covers. Qed.
+
+(* attractors project onto a regulator-closed block *)
+Theorem C01_proj_attractor : forall (N : net) (S : space) (B : list nat) (A : state -> Prop) (s0 : state), trap_space N S -> closed_in N S B -> attractor N A -> inside A S -> A s0 -> attractor (freeze N B) (fun t : state => wf_state N t /\ (exists s : state, A s /\ (forall v : nat, In v B -> nth v t false = nth v s false) /\ (forall v : nat, v < nvars N -> ~ In v B -> nth v t false = nth v s0 false))).
+Proof. exact proj_attractor. Qed.
+
+Theorem C01_block_expansion_attractors_served : forall (fuel : nat) (N : net) (cfg : config) (d' : sd) (opt : bool) (sz : option nat) (tape : list bool), 1 <= max_motifs cfg -> expand_block fuel N cfg (init N) true opt sz tape = (d', RBool true) -> clean_log_ok N (fst (expand_block_log fuel N cfg (init N) true opt sz tape)) -> AttrServed N d'.
+Proof. exact expand_block_AttrServed. Qed.
+
+(* nodes whose seeds block expansion sets to [] own nothing *)
+Theorem C01_block_expansion_emptied_sound : forall (fuel : nat) (N : net) (cfg : config) (d' : sd) (opt : bool) (sz : option nat) (tape : list bool) (x : nat) (A : state -> Prop), 1 <= max_motifs cfg -> expand_block fuel N cfg (init N) true opt sz tape = (d', RBool true) -> clean_log_ok N (fst (expand_block_log fuel N cfg (init N) true opt sz tape)) -> In x (snd (expand_block_log fuel N cfg (init N) true opt sz tape)) -> ~ owns N d' x A.
+Proof. exact expand_block_emptied_sound. Qed.
+
+(* block expansion with motif-avoidance checks, reporting completion, honest is_clean tape *)
+Theorem C01_block_expansion_one_to_one : forall (fuel : nat) (N : net) (cfg : config) (d' : sd) (opt : bool) (sz : option nat) (tape : list bool) (seeds : nat -> list state), 1 <= max_motifs cfg -> expand_block fuel N cfg (init N) true opt sz tape = (d', RBool true) -> clean_log_ok N (fst (expand_block_log fuel N cfg (init N) true opt sz tape)) -> exp_seeds_ok N d' seeds -> (forall A : state -> Prop, attractor N A -> exists (i : nat) (s : state), i < size d' /\ n_exp (get d' i) = true /\ In s (seeds i) /\ A s) /\ (forall (A : state -> Prop) (i j : nat) (s t : state), attractor N A -> i < size d' -> j < size d' -> n_exp (get d' i) = true -> n_exp (get d' j) = true -> In s (seeds i) -> In t (seeds j) -> A s -> A t -> i = j /\ s = t).
+Proof. exact expand_block_one_to_one. Qed.
+
+(* the run-time check of the is_clean tape is exact *)
+Theorem C01_clean_log_check_exact : forall (N : net) (lg : list (list (option bool) * list nat * list (list (option bool)) * bool)), (forall (sp : list (option bool)) (B : list nat) (motifs : list (list (option bool))) (b : bool), In (sp, B, motifs, b) lg -> length sp = nvars N /\ (forall m : list (option bool), In m motifs -> length m = nvars N)) -> clean_log_ok_b N lg = true <-> clean_log_ok N lg.
+Proof. exact clean_log_ok_b_spec. Qed.
+
+(* attractor-seed expansion: a successor without new candidates contains no attractor outside the expanded siblings *)
+Theorem C01_pruned_successor_hides_nothing : forall (N : net) (d : sd) (node s : nat) (nfvs : list nat) (A : state -> Prop), SWF N d -> TrapNodes N d -> node < size d -> s < size d -> (forall m : space, In m (expanded_motifs d node) -> trap_space N m) -> NoDup nfvs -> (forall v : nat, In v nfvs -> v < nvars N) -> no_neg_walk N (n_space (get d s)) nfvs -> has_new_candidate N d node s nfvs = false -> attractor N A -> inside A (n_space (get d s)) -> exists m : space, In m (expanded_motifs d node) /\ inside A m.
+Proof. exact no_new_candidate_sound. Qed.
+
+Theorem C01_aseeds_expansion_attractors_served : forall (fuel : nat) (N : net) (cfg : config) (d d' : sd) (sz : option nat) (min_tape : list space) (tape : list (list nat)), 1 <= max_motifs cfg -> PlainInv N d -> expand_aseeds fuel N cfg d sz min_tape tape = (d', RBool true) -> nfvs_log_ok N (expand_aseeds_log fuel N cfg d sz min_tape tape) -> AttrServed N d'.
+Proof. exact expand_aseeds_AttrServed. Qed.
+
+(* attractor-seed expansion from any diagram reached by plain operations *)
+Theorem C01_aseeds_expansion_one_to_one : forall (fuel : nat) (N : net) (cfg : config) (d d' : sd) (sz : option nat) (min_tape : list space) (tape : list (list nat)) (seeds : nat -> list state), 1 <= max_motifs cfg -> PlainInv N d -> expand_aseeds fuel N cfg d sz min_tape tape = (d', RBool true) -> nfvs_log_ok N (expand_aseeds_log fuel N cfg d sz min_tape tape) -> exp_seeds_ok N d' seeds -> (forall A : state -> Prop, attractor N A -> exists (i : nat) (s : state), i < size d' /\ n_exp (get d' i) = true /\ In s (seeds i) /\ A s) /\ (forall (A : state -> Prop) (i j : nat) (s t : state), attractor N A -> i < size d' -> j < size d' -> n_exp (get d' i) = true -> n_exp (get d' j) = true -> In s (seeds i) -> In t (seeds j) -> A s -> A t -> i = j /\ s = t).
+Proof. exact expand_aseeds_one_to_one. Qed.
+
+(* the run-time check of the NFVS tape is exact *)
+Theorem C01_nfvs_log_check_exact : forall (N : net) (lg : list (list (option bool) * list nat)), (forall (sp : list (option bool)) (nfvs : list nat), In (sp, nfvs) lg -> length sp = nvars N) -> nfvs_log_ok_b N lg = true <-> nfvs_log_ok N lg.
+Proof. exact nfvs_log_ok_b_spec. Qed.
+
 (* non-vacuity: two bistable switches; x0'=x1, x1'=x0, x2'=x3, x3'=x2 *)
 Definition ex_sw : net := [fun s => nth 1 s false; fun s => nth 0 s false; fun s => nth 3 s false; fun s => nth 2 s false].
 Definition ex_cfg : config := {| max_motifs := 1000 |}.
@@ -80,6 +133,16 @@ Example C01_example_attractors : length (attractors_b ex_sw) = 4.
 Proof. vm_compute. reflexivity. Qed.
 Example C01_example_filter : fst (compute_attractors_filter ex_sw false [] (all_states 4)) <> [].
 Proof. vm_compute. discriminate. Qed.
+(* the hypotheses of expand_block_one_to_one / expand_aseeds_one_to_one are met by concrete runs *)
+Example C01_example_block : snd (expand_block 100 ex_sw ex_cfg (init ex_sw) true true None (repeat true 20)) = RBool true /\
+  clean_log_ok_b ex_sw (fst (expand_block_log 100 ex_sw ex_cfg (init ex_sw) true true None (repeat true 20))) = true /\
+  length (fst (expand_block_log 100 ex_sw ex_cfg (init ex_sw) true true None (repeat true 20))) = 3.
+Proof. vm_compute. repeat split; reflexivity. Qed.
+Example C01_example_aseeds :
+  snd (expand_aseeds 100 ex_sw ex_cfg (init ex_sw) None (min_traps_b ex_sw (top_space 4)) (repeat [] 9)) = RBool true /\
+  nfvs_log_ok_b ex_sw (expand_aseeds_log 100 ex_sw ex_cfg (init ex_sw) None (min_traps_b ex_sw (top_space 4)) (repeat [] 9)) = true /\
+  length (expand_aseeds_log 100 ex_sw ex_cfg (init ex_sw) None (min_traps_b ex_sw (top_space 4)) (repeat [] 9)) = 2.
+Proof. vm_compute. repeat split; reflexivity. Qed.
 
 Print Assumptions C01_filter_exact.
 Print Assumptions C01_filter_exact_seeds_only.
@@ -96,3 +159,16 @@ Print Assumptions C01_nfvs_reduction.
 Print Assumptions C01_owner_exists.
 Print Assumptions C01_owner_unique.
 Print Assumptions C01_global_one_to_one.
+Print Assumptions C01_partial_one_to_one.
+Print Assumptions C01_owner_unique_partial.
+Print Assumptions C01_ff_form_owns_nothing.
+Print Assumptions C01_clean_block_covers.
+Print Assumptions C01_proj_attractor.
+Print Assumptions C01_block_expansion_attractors_served.
+Print Assumptions C01_block_expansion_emptied_sound.
+Print Assumptions C01_block_expansion_one_to_one.
+Print Assumptions C01_clean_log_check_exact.
+Print Assumptions C01_pruned_successor_hides_nothing.
+Print Assumptions C01_aseeds_expansion_attractors_served.
+Print Assumptions C01_aseeds_expansion_one_to_one.
+Print Assumptions C01_nfvs_log_check_exact.
